@@ -7,7 +7,7 @@
    specification's validator accepts the file (lenient mode: encode_dict leaves the last bit-packed group unpadded). *)
 From Coq Require Import NArith ZArith List.
 From Pq Require Import Base.Bytes Base.ListX Format.Phys Format.Meta Format.Page Format.ChunkLayout Format.File Format.Enc
-                       Impl.WChunk Impl.WFile Proofs.WChunkProofs Proofs.WFileProofs.
+                       Impl.WChunk Impl.WFile Proofs.WChunkProofs Proofs.WFileProofs Proofs.ChunkOrderProofs.
 Import ListNotations.
 
 (* hypotheses: `wfile_wf` = leaves well-formed; per row group one chunk per leaf of the leaf's type (`wcol_ok`: pages within the
@@ -57,3 +57,14 @@ Example C02_file_model_nonvacuous :
   valid_file idd false (w_file idc f) = ROk tt /\
   dec_file idd false (w_file idc f) = ROk (map leaf_of_l [l1; l2], map (wcells [l1; l2]) (wf_rgs f)).
 Proof. vm_compute. split; reflexivity. Qed.
+
+(* parquet.thrift, RowGroup.columns "must have the same order as the SchemaElement list": the specification's scanner pairs leaves
+   and chunks positionally and checks each path_in_schema, so every file it accepts (valid_file runs it) lists the chunks of every
+   row group in schema order; C02_spec_roundtrip / C02_fp_write_file_valid_partial show the encoders' files are accepted *)
+Theorem C02_chunks_in_schema_order : forall decompress strict file fstart lfs cs outs,
+  scan_cols decompress strict file fstart lfs cs = ROk outs ->
+  length lfs = length cs /\
+  forall i lf c o, nth_error lfs i = Some lf -> nth_error cs i = Some c -> nth_error outs i = Some (CHere o) ->
+                   exists m, cc_meta c = Some m /\ cm_path m = [lf_name lf].
+Proof. exact Proofs.ChunkOrderProofs.scan_cols_schema_order. Qed.
+Print Assumptions C02_chunks_in_schema_order.
